@@ -317,7 +317,11 @@ impl std::ops::Neg for &'_ SparqlNumber {
 
     fn neg(self) -> Self::Output {
         match self {
-            SparqlNumber::NativeInt(inner) => Some((-inner).into()),
+            SparqlNumber::NativeInt(inner) => Some(
+                inner
+                    .checked_neg()
+                    .map_or_else(|| (-BigInt::from(*inner)).into(), Into::into),
+            ),
             SparqlNumber::BigInt(inner) => Some((-inner).into()),
             SparqlNumber::Decimal(inner) => Some((-inner).into()),
             SparqlNumber::Float(inner) => Some((-inner).into()),
